@@ -1,7 +1,10 @@
-// Rank-0 lifecycle harness (C04, C05, C07 at dimensionality 0): a pool of six slots, each holding a rank-0 array
+// Rank-0 lifecycle harness (C04, C05, C07, C10 at dimensionality 0): a pool of six slots, each holding a rank-0 array
 // multi::array<E, 0, A> or a BUFFER (storage that rank-0 references array_ref<E, 0> are bound to), driven by a history text
 // (format: ocaml/rank0_driver.ml).  One executable per element kind (-DR0_T=0 int | 1 tracked class | 2 struct{int v = 0;} |
-// 3 trivial default constructor with user-provided copy); instrumented element and allocator as in h_life.cpp.
+// 3 trivial default constructor with user-provided copy) and per allocator configuration (-DR0_POCCA= -DR0_POCMA= -DR0_POCS=
+// -DR0_AE= : the traits of life::tracked_alloc; -DR0_PMR=1 : std::pmr::polymorphic_allocator over logging resources; what
+// select_on_container_copy_construction returns is read from the case's cfg line); instrumented element and allocator as in
+// h_life.cpp.
 // After every operation: per live slot the elements (moved-from ones flagged '!'), the block identity class (numbered by first
 // appearance), the allocator id; globally the live elements, the outstanding blocks, the element copies of the operations that
 // must not copy, the allocations.  Comparisons, conversions and size queries print 'Q' lines.  Monitors that do not depend on
@@ -27,13 +30,13 @@
 using namespace r0;   // NOLINT
 
 constexpr int NP = 6;
-static A mk_alloc(int id) { return A(id); }
+static A mk_alloc(int id) { return mk_alloc_of<E>(id); }
 
 struct Buf {
 	A      al;
 	E*     p = nullptr;
 	std::size_t n = 0;
-	Buf(int a, std::vector<int> const& vals) : al(a), n(vals.size()) {
+	Buf(int a, std::vector<int> const& vals) : al(mk_alloc(a)), n(vals.size()) {
 		p = al.allocate(n);
 		for(std::size_t k = 0; k != n; ++k) { new(p + k) E(vals[k]); }
 	}
@@ -58,6 +61,7 @@ struct unavailable {};    // no spelling of the operation compiles on this tree 
 
 struct Case {
 	std::string id;
+	int socc = 0;
 	Slot slot[NP];
 	std::vector<std::string> lines;
 	std::map<long, int> blk_class;
@@ -79,7 +83,7 @@ static std::string validity(void const* p, std::size_t n) {
 	return "";
 }
 
-static void print_state(Case& c, int step, bool show_copies) {
+static void print_state(Case& c, int step, bool show_copies, bool show_allocs = true) {
 	auto& L = life::ledger();
 	auto& R = life::reg();
 	// monitor: no two objects of the pool share an element
@@ -98,7 +102,7 @@ static void print_state(Case& c, int step, bool show_copies) {
 		if(S.kind == 0) { continue; }
 		E const* p = S.kind == 1 ? std::as_const(S.arr()).base() : S.buf().p;
 		std::size_t n = S.kind == 1 ? static_cast<std::size_t>(std::as_const(S.arr()).num_elements()) : S.buf().n;
-		int al = S.kind == 1 ? S.arr().get_allocator().id : S.buf().al.id;
+		int al = S.kind == 1 ? alloc_id(S.arr().get_allocator()) : alloc_id(S.buf().al);
 		std::cout << "A " << c.id << ' ' << step << " r" << r << (S.kind == 1 ? " arr" : " buf");
 		if(S.kind == 1 && n != 1) {
 			std::cout << " INVALID al=" << al << '\n';
@@ -131,7 +135,9 @@ static void print_state(Case& c, int step, bool show_copies) {
 	for(std::size_t k = 0; k != out.size(); ++k) { std::cout << (k ? "," : "") << out[k].first << ':' << out[k].second; }
 	std::cout << " copies=";
 	if(show_copies && tracked) { std::cout << R.copies; } else { std::cout << '-'; }
-	std::cout << " allocs=" << L.allocs << '\n';
+	std::cout << " allocs=";
+	if(show_allocs) { std::cout << L.allocs; } else { std::cout << '-'; }
+	std::cout << '\n';
 }
 
 struct Tok {
@@ -226,8 +232,14 @@ static void run_case(Case& c) {
 	auto& L = life::ledger();
 	R.reset();
 	L.reset();
+#if R0_PMR
+	for(int k = 0; k != NRES; ++k) { resources()[k].id = k; resources()[k].elem_size = sizeof(E); resources()[k].check_cells = tracked; }
+	std::pmr::set_default_resource(&resources()[0]);
 	L.always_equal = false;
-	L.socc_mode = 0;
+#else
+	L.always_equal = (R0_AE != 0);
+#endif
+	L.socc_mode = c.socc;
 	int step = 0;
 	for(auto const& line : c.lines) {
 		Tok tk;
@@ -238,6 +250,7 @@ static void run_case(Case& c) {
 		++step;
 		std::string op = tk.s();
 		bool show_copies = false;
+		bool show_allocs = true;
 		bool skipped = false;
 		bool threw = false;
 		bool observation = false;
@@ -436,6 +449,10 @@ static void run_case(Case& c) {
 				int r = tk.arr0(); int s = tk.arr0(); int form = tk.form();
 				if(r == s) { throw skip_op{}; }
 				show_copies = true;
+				// form 1: the generic algorithm, by qualified name.  form 0: what generic code writes; the friend of array<T, 0>
+				// (member swap) where the tree has it, the generic algorithm otherwise: the two differ by the temporary's allocation
+				// (not shown) and, under the propagation traits, by which allocator each object ends up with (shown)
+				show_allocs = (form == 1);
 				arm();
 				if(form == 1) { std::swap(S(r).arr(), S(s).arr()); } else { using std::swap; swap(S(r).arr(), S(s).arr()); }
 			} else if(op == "swap_member") {
@@ -611,7 +628,7 @@ static void run_case(Case& c) {
 		if(skipped) { std::cout << "O " << c.id << ' ' << step << ' ' << op << " skipped\n"; continue; }
 		if(!R.error.empty()) { std::cout << "X " << c.id << ' ' << step << " error " << R.error << '\n'; c.dead = true; break; }
 		std::cout << "O " << c.id << ' ' << step << ' ' << op << ' ' << (threw ? "threw" : "ok") << '\n';
-		print_state(c, step, show_copies && !threw);
+		print_state(c, step, show_copies && !threw, show_allocs);
 		std::cout.flush();
 		if(c.dead) { break; }
 	}
@@ -650,7 +667,11 @@ int main() {
 			std::cout.flush();
 			delete cur;
 			cur = nullptr;
-		} else if(cur != nullptr && line.rfind("cfg ", 0) != 0) {
+		} else if(cur != nullptr && line.rfind("cfg ", 0) == 0) {
+			// the check routes a case to the executable built for its configuration; only socc is a run-time choice
+			auto pos = line.find("socc=");
+			if(pos != std::string::npos) { cur->socc = std::stoi(line.substr(pos + 5)); }
+		} else if(cur != nullptr) {
 			cur->lines.push_back(line);
 		}
 	}
